@@ -16,6 +16,7 @@ import TboxModel.C10.BlockShape
 import TboxModel.C10.Sched
 import TboxModel.C10.PackRule
 import TboxModel.C10.Fault
+import TboxModel.C10.Replay
 namespace Tbox.C10
 
 /-- **lossless, no duplication, contiguous, acquisition order.**  What has been delivered to the
@@ -528,6 +529,129 @@ theorem C10_lockless_without_lock_counterexample :
     ((run [0, 1, 0, 1]).out, (run [0, 1, 0, 1]).curr) = ([[0xA0, 1], [0xA1, 3], [2, 4]], []) ∧
     Spec.accept progNL (run [0, 1, 0, 1]).out.flatten = false ∧
     Spec.accept progNL (run [0, 0, 1, 1]).out.flatten = true := by decide
+
+/-! ### round 6: per-thread order under allocation failure, the step-level replay, exact-fill boundaries -/
+
+/-- **per-thread order survives allocation failures** (repaired code).  For every configuration, program, thread `p` and every
+execution with allocation failures at ANY enabled points: what has been recorded for `p` in acquisition order is, entry by entry
+and in order, the part `orig` of `p`'s program it has issued so far — each append whole, or cut to the prefix it wrote when it
+was aborted by `bad_alloc` (`CutsOf`) — and what `p` will still append is exactly the rest of its program.  No append of `p`
+overtakes another, none is duplicated, none disappears (an aborted one is still recorded, possibly with the empty prefix). -/
+theorem C10_alloc_failure_per_thread_order (cfg : Cfg) (prog) (hc : cfg.ok = true) (xs : List XStep) (s : State)
+    (he : xexec true (init cfg prog) xs = some s) (p : Nat) :
+    ∃ orig, orig ++ s.prog p = prog p ∧ CutsOf ((s.acq.filter (fun a => a.1 == p)).map (·.2)) orig :=
+  xexec_xprog prog xs _ s (init_xinv cfg prog hc) (fun q => ⟨[], by simp [init], by simp [init, CutsOf]⟩) he p
+
+/-- **only failed appends are cut, and at most one per failure.**  There is a list `O` — the appends acquired so far, UNCUT —
+that obeys the plain per-thread order law (`O` filtered by thread, followed by what the thread will still append, is its program)
+and of which the recorded acquisition list is an entry-by-entry image: same thread, data a prefix (`Cuts2`); the number of
+entries that really differ is at most the number of allocation failures in the execution.  In particular an execution without
+failures records every append whole (`acq = O`). -/
+theorem C10_alloc_failure_order_exact (cfg : Cfg) (prog) (hc : cfg.ok = true) (xs : List XStep) (s : State)
+    (he : xexec true (init cfg prog) xs = some s) :
+    ∃ O, (∀ p, ((O.filter (fun a => a.1 == p)).map (·.2)) ++ s.prog p = prog p) ∧ Cuts2 s.acq O ∧ nCut s.acq O ≤ nFail xs ∧
+      (nFail xs = 0 → s.acq = O) := by
+  have h := xexec_xord prog xs _ s 0 (init_xinv cfg prog hc) ⟨[], by intro p; simp [init], by simp [init, Cuts2], by simp [init, nCut]⟩ he
+  obtain ⟨O, h1, h2, h3⟩ := h
+  refine ⟨O, h1, h2, by simpa using h3, fun h0 => cuts2_eq_of_nCut_zero _ _ h2 (by rw [h0] at h3; omega)⟩
+
+/-- without failures nothing is cut: the fault-tolerant statement specialises to `C10_per_thread_order` -/
+example : CutsOf [[1, 2], [3]] [[1, 2, 9], [3]] ∧ ¬ CutsOf [[3], [1, 2]] [[1, 2, 9], [3]] := by
+  refine ⟨by simp [CutsOf], ?_⟩
+  simp [CutsOf]
+
+/-- **the step-level replay is certified** — for every start state and EVERY event list (well-formed or not): the steps `replay`
+(the function lean/Driver/C10.lean runs on the mutex / condition-variable events recorded from the real pipe) has recorded are an
+execution of the model from the start state, ending in the state it reports.  A recorded interleaving that `replay` follows to
+the end without error IS a model execution; one it cannot follow is reported as a broken correspondence. -/
+theorem C10_replay_certified (s0 : State) (evs : List Ev) :
+    xexec true s0 (replay s0 evs).core.rsteps.reverse = some (replay s0 evs).core.s :=
+  replay_certified s0 evs
+
+/-- hence every theorem about executions applies to what the replay reconstructs: for an accepted configuration, the state the
+replay of ANY event list reports satisfies the stream equation, the buffer accounting, well-formed blocks, serial callbacks and
+per-thread order (whatever the real pipe did, if the replay followed it, it did nothing the theorems exclude) -/
+theorem C10_replay_sound (cfg : Cfg) (prog) (hc : cfg.ok = true) (evs : List Ev) :
+    let s := (replay (init cfg prog) evs).core.s
+    (s.delivered.flatten ++ s.full.flatten ++ currOf s.curr ++ remainOf s.owner = (s.acq.map (·.2)).flatten) ∧
+    (cfg.minN ≤ s.buffNum ∧ s.buffNum ≤ cfg.maxN ∧ s.buffNum = s.free + currCount s.curr + s.full.length + inflight s.bpc) ∧
+    (∀ b ∈ s.delivered, 1 ≤ b.length ∧ b.length ≤ cfg.size) ∧ s.active ≤ 1 ∧
+    (∀ p, ∃ orig, orig ++ s.prog p = prog p ∧ CutsOf ((s.acq.filter (fun a => a.1 == p)).map (·.2)) orig) := by
+  have he := replay_certified (init cfg prog) evs
+  obtain ⟨h1, h2, h3, h4⟩ := C10_alloc_failure_safe cfg prog hc _ _ he
+  exact ⟨h1, h2, h3, h4, fun p => C10_alloc_failure_per_thread_order cfg prog hc _ _ he p⟩
+
+def mkEvs (l : List (Char × Char × Nat)) : List Ev := l.map fun x => { k := x.1, m := x.2.1, t := x.2.2 }
+
+/-- non-vacuity: a recorded lifecycle (8-byte buffers; thread 0 appends 8 bytes = exactly one buffer while the back end sits in
+its timed wait; the hand-over wakes it; cleanup) is followed to the end: no error, joined, not late, the block delivered -/
+def evsDemo : List Ev := mkEvs
+  [('L','F',9), ('W','F',9), ('L','C',0), ('L','R',0), ('U','R',0), ('L','F',0), ('N','-',0), ('U','F',0), ('U','C',0), ('u','C',0),
+   ('X','F',9), ('U','F',9), ('L','F',9), ('U','F',9), ('L','B',9), ('U','B',9), ('L','R',9), ('N','-',9), ('U','R',9),
+   ('L','F',9), ('U','F',9), ('L','F',9), ('W','F',9), ('L','F',10), ('U','F',10), ('N','-',10), ('X','F',9), ('U','F',9),
+   ('p','C',9), ('T','C',9), ('U','C',9), ('L','F',9), ('U','F',9)]
+
+def progDemo : Nat → List (List UInt8) := fun p => if p = 0 then [[1, 2, 3, 4, 5, 6, 7, 8]] else []
+
+set_option maxRecDepth 20000 in
+example : let r := replay (init ⟨8, 1, 2, 5⟩ progDemo) evsDemo
+    (r.err, r.core.s.delivered, r.core.s.joined, r.core.s.late, r.noNotify, r.core.rsteps.length) =
+      (none, [[1, 2, 3, 4, 5, 6, 7, 8]], true, false, 0, 19) := by decide
+
+set_option maxRecDepth 20000 in
+/-- … and a log in which the back end's try_lock SUCCEEDS while the append still holds the producer lock is not followed -/
+example : (replay (init ⟨8, 1, 2, 5⟩ progDemo) (mkEvs
+    [('L','F',9), ('W','F',9), ('L','C',0), ('X','F',9), ('U','F',9), ('p','C',9), ('T','C',9)])).err.isSome = true := by decide
+
+/-- **exact-fill boundaries** (lesson g: an append equal in size to the space left in `curr_buffer_`, ±1).  One iteration of the
+append loop with `k` bytes still to write into a current buffer `b` with `space = size − |b| > 0` bytes left:
+`k < space` — everything is written, the buffer stays current, no hand-over; `k = space` — everything is written, the buffer is
+EXACTLY full and is handed over, nothing remains and no new buffer is taken (the loop ends with `curr_buffer_ == nullptr`);
+`k > space` — `space` bytes are written, the buffer is handed over, `k − space ≥ 1` bytes remain for the next iteration. -/
+theorem C10_exact_fill_boundary (s : State) (o : Owner) (b : Buf) (hb : b.length < s.cfg.size) :
+    (o.remain.length < s.cfg.size - b.length →
+      (writeChunk s o b).full = s.full ∧ (writeChunk s o b).curr = some (b ++ o.remain) ∧
+      (writeChunk s o b).owner = some { o with remain := [] }) ∧
+    (o.remain.length = s.cfg.size - b.length →
+      (writeChunk s o b).full = s.full ++ [b ++ o.remain] ∧ (writeChunk s o b).curr = none ∧
+      (writeChunk s o b).owner = some { o with remain := [] }) ∧
+    (s.cfg.size - b.length < o.remain.length →
+      (writeChunk s o b).full = s.full ++ [b ++ o.remain.take (s.cfg.size - b.length)] ∧ (writeChunk s o b).curr = none ∧
+      (writeChunk s o b).owner = some { o with remain := o.remain.drop (s.cfg.size - b.length) } ∧
+      (o.remain.drop (s.cfg.size - b.length)).length = o.remain.length - (s.cfg.size - b.length)) := by
+  refine ⟨fun h => ?_, fun h => ?_, fun h => ?_⟩
+  · have hm : min o.remain.length (s.cfg.size - b.length) = o.remain.length := by omega
+    have hne : ¬ (b.length + o.remain.length = s.cfg.size) := by omega
+    simp [writeChunk, hm, hne]
+  · have hm : min o.remain.length (s.cfg.size - b.length) = o.remain.length := by omega
+    have heq : b.length + o.remain.length = s.cfg.size := by omega
+    simp [writeChunk, hm, heq]
+  · have hm : min o.remain.length (s.cfg.size - b.length) = s.cfg.size - b.length := by omega
+    have heq : b.length + (s.cfg.size - b.length) = s.cfg.size := by omega
+    have hlen : (o.remain.take (s.cfg.size - b.length)).length = s.cfg.size - b.length := by
+      rw [List.length_take]; omega
+    have heq2 : (b ++ o.remain.take (s.cfg.size - b.length)).length = s.cfg.size := by rw [List.length_append, hlen]; omega
+    unfold writeChunk
+    simp only [hm]
+    rw [if_pos (by simpa using heq2)]
+    exact ⟨rfl, rfl, rfl, by rw [List.length_drop]⟩
+
+/-- an append of exactly `buff_size × buff_max_num` bytes into a fresh pipe fills every buffer the pipe may own and RETURNS
+without waiting (back end not even scheduled): 2-byte buffers, at most 2 of them, 4 bytes; with one byte more the producer
+blocks on back-pressure — with one byte less the last buffer stays current -/
+example : (exec (init ⟨2, 1, 2, 1⟩ (fun p => if p = 0 then [[1, 2, 3, 4]] else []))
+    [.acquire 0, .pTake, .pWrite, .pTake, .pWrite, .release]).map (fun s => (s.full, s.curr, s.owner.isNone, s.buffNum, s.free)) =
+    some ([[1, 2], [3, 4]], none, true, 2, 0) := by decide
+example : (exec (init ⟨2, 1, 2, 1⟩ (fun p => if p = 0 then [[1, 2, 3, 4, 5]] else []))
+    [.acquire 0, .pTake, .pWrite, .pTake, .pWrite, .pTake]).map (fun s => (s.full.length, s.owner.map (·.blocked))) =
+    some (2, some true) := by decide
+example : (exec (init ⟨2, 1, 2, 1⟩ (fun p => if p = 0 then [[1, 2, 3]] else []))
+    [.acquire 0, .pTake, .pWrite, .pTake, .pWrite, .release]).map (fun s => (s.full, s.curr)) = some ([[1, 2]], some [3]) := by decide
+/-- the timed flush fires at the very moment the buffer became full: the hand-over of the full buffer wins, the timed grab finds
+`curr_buffer_ == nullptr` and takes nothing — the block is delivered once -/
+example : (exec (init ⟨2, 1, 2, 1⟩ (fun p => if p = 0 then [[1], [2]] else []))
+    [.acquire 0, .pTake, .pWrite, .release, .bTop, .bWake true, .acquire 0, .pWrite, .release, .bGrab, .bPop, .bCbRet, .bPushFree, .bPop]).map
+    (fun s => (s.delivered, s.full, s.curr)) = some ([[1, 2]], [], none) := by decide
 
 /-! ### non-vacuity: concrete interleavings satisfying the hypotheses -/
 
